@@ -833,7 +833,8 @@ class ktensor:
         if not isinstance(other, ktensor):
             assert False, "other must be a ktensor"
         # Makes typing happy https://github.com/python/mypy/issues/4805
-        other_tensor = other
+        # Work on a copy: the reference tensor must not be modified
+        other_tensor = other.copy()
 
         self.normalize()
         other_tensor = other_tensor.normalize()
